@@ -223,10 +223,11 @@ def build_harness(pid):
 
 # ----------------------------------------------------------------------------- known findings
 def load_known():
-    p = os.path.join(VERIF, "known_findings.json")
-    if not os.path.exists(p):
-        return []
-    return json.load(open(p)).get("findings", [])
+    out = []
+    for p in [os.path.join(VERIF, "known_findings.json")] + sorted(glob.glob(os.path.join(VERIF, "known_findings.d", "*.json"))):
+        if os.path.exists(p):
+            out += json.load(open(p)).get("findings", [])
+    return out
 
 
 def splitmix(x):
@@ -469,7 +470,8 @@ def check(pid, tier, seed, replay=None, only_law=None, scale=1.0):
         if (v[0], v[1]) not in seen:
             seen.add((v[0], v[1]))
             uniq.append(v)
-    violations = uniq
+    perlaw = {}
+    violations = [v for v in uniq if perlaw.setdefault(v[0], []).append(1) or len(perlaw[v[0]]) <= 2]
     evals = sum(p["evaluations"] for p in per_law.values())
     dn = sum(len(p["hashes"]) for p in per_law.values())
     samples = []
